@@ -55,7 +55,7 @@ class HFuture(Future):
             ex.false_polls = 0
             return True
         ex.false_polls += 1
-        if ex.false_polls > 50000:
+        if ex.false_polls > 400:
             raise RuntimeError("verif: a search keeps polling futures none of which can complete")
         return False
 
